@@ -16,15 +16,16 @@ def main():
     comp = emit.emit_compute(ir)
     tabs, meta = emit.emit_tables(ir)
     ir["table_meta"] = meta
-    gen = os.path.join(ROOT, "coq", "gen")
+    gen = os.environ.get("VERIF_GEN_DIR") or os.path.join(ROOT, "coq", "gen")
+    build = os.environ.get("VERIF_BUILD_DIR") or os.path.join(ROOT, "build")
     ch = [emit.write_if_changed(os.path.join(gen, "Compute.v"), comp),
           emit.write_if_changed(os.path.join(gen, "Tables.v"), tabs),
           emit.write_if_changed(os.path.join(gen, "Unfold.v"), emit.emit_unfold(ir)),
           emit.write_if_changed(os.path.join(gen, "Totality.v"), emit.emit_totality(ir, meta))]
-    os.makedirs(os.path.join(ROOT, "build"), exist_ok=True)
+    os.makedirs(build, exist_ok=True)
     # T3 in its own process (it re-wires the object backend)
     import subprocess
-    objapi = os.path.join(ROOT, "build", "objapi.json")
+    objapi = os.path.join(build, "objapi.json")
     p3 = subprocess.run([sys.executable, "-m", "tools.vtrace.t3run", objapi], cwd=ROOT, capture_output=True, text=True, timeout=600)
     if p3.returncode != 0:
         print(p3.stdout[-2000:], p3.stderr[-4000:])
@@ -34,7 +35,27 @@ def main():
     aborted = [r for fam in recs.values() for r in fam if r["out"].get("kind") == "abort"]
     if aborted:
         raise RuntimeError(f"T3: {len(aborted)} API calls aborted on symbolic values, e.g. {aborted[0]}")
-    api_v, names_v, bin_v = emit_obj.emit(recs, ir)
+    # T5 in its own process as well (it captures the Numba registrations at import time)
+    nbapi = os.path.join(build, "nbapi.json")
+    p5 = subprocess.run([sys.executable, "-m", "tools.vtrace.t5run", nbapi], cwd=ROOT, capture_output=True, text=True, timeout=900)
+    if p5.returncode != 0:
+        print(p5.stdout[-2000:], p5.stderr[-4000:])
+        raise RuntimeError("T5 (Numba overload layer symbolic execution) failed")
+    t5stats = json.loads(p5.stdout.strip().splitlines()[-1])
+    nbrecs = json.load(open(nbapi))
+    nb_aborted = [r for r in nbrecs if "abort" in (r["nb"].get("kind"), r["py"].get("kind"))]
+    if nb_aborted:
+        raise RuntimeError(f"T5: {len(nb_aborted)} program points aborted on symbolic values, e.g. {json.dumps(nb_aborted[0])[:600]}")
+    from tools.vtrace import emit_nb
+    api_v, names_v, bin_v, more = emit_obj.emit(recs, ir, extra=lambda simp: emit_nb.emit(nbrecs, simp))
+    for fn, txt in more.items():
+        ch.append(emit.write_if_changed(os.path.join(gen, fn), txt))
+    import glob
+    for stale in glob.glob(os.path.join(gen, "NbApi_*.v")):
+        if os.path.basename(stale) not in more:
+            for ext in ("", "o", "ok", "os"):
+                if os.path.exists(stale + ext):
+                    os.remove(stale + ext)
     ch.append(emit.write_if_changed(os.path.join(gen, "ObjApiBin.v"), bin_v))
     ch.append(emit.write_if_changed(os.path.join(gen, "ObjApi.v"), api_v))
     ch.append(emit.write_if_changed(os.path.join(gen, "ObjNames.v"), names_v))
@@ -42,18 +63,18 @@ def main():
     from tools.vtrace import t2
     eff_v, eff_meta = t2.emit()
     ch.append(emit.write_if_changed(os.path.join(gen, "EffectSkel.v"), eff_v))
-    json.dump(eff_meta, open(os.path.join(ROOT, "build", "t2.json"), "w"), indent=1)
-    emit.write_if_changed(os.path.join(ROOT, "build", "ir.json"), json.dumps(ir))
+    json.dump(eff_meta, open(os.path.join(build, "t2.json"), "w"), indent=1)
+    emit.write_if_changed(os.path.join(build, "ir.json"), json.dumps(ir))
     from tools.vtrace import validate
     seed = int(os.environ.get("VERIF_SEED", "0") or 0)
     val = validate.validate(ir, tracer, seed=seed, per_fn=int(os.environ.get("VERIF_T1_SAMPLES", "7")))
-    json.dump(val, open(os.path.join(ROOT, "build", "t1_validation.json"), "w"))
+    json.dump(val, open(os.path.join(build, "t1_validation.json"), "w"))
     if val["n_mismatches"]:
         print("T1-VALIDATION-FAILED", json.dumps(val["mismatches"][:3]))
         sys.exit(4)
     print(json.dumps({"t1_validation_evaluations": val["evaluations"], "strata": val["strata"]}))
     print(json.dumps({"functions": len(ir["functions"]), "entries": sum(len(t["entries"]) for t in ir["tables"].values()),
-                      "audited": ir["audited"], "t3_records": t3counts, "changed": ch, "wall_s": round(time.time() - t0, 2)}))
+                      "audited": ir["audited"], "t3_records": t3counts, "t5": t5stats, "changed": ch, "wall_s": round(time.time() - t0, 2)}))
 
 
 if __name__ == "__main__":
